@@ -104,6 +104,12 @@ CHECKS.update({
          "bash 5.2.15 reference; with an early-exit consumer only the consumer's output and $? are compared and pipefail is off (upstream statuses are timing-dependent in bash too); a hang counts only when bash needed < 1/20 of the 8 s limit and brush exceeded it three times (else inconclusive)", "DESIGN.md §3 C11"),
 })
 
+CHECKS.update({
+ "C17": ("history-style property testing: generated sequences of job launches, foreground commands, sleeps, `jobs` queries and waits, run on 1/2/all CPUs with pause-point schedules; invariants over the observed history (happens-before of job effects vs the line after wait, exactly-once effects, distinct job numbers)",
+         "2.5k (quick) / 40k (thorough) histories of up to 12 operations with 1-8 jobs of 6 kinds (external, brace group, pipeline, subshell, function, if) launched from top level, function, loop or group, durations from {0,10,30,60,120} ms so that finishing orders vary, waits of three kinds, final wait; every invariant checked on brush, and on bash when brush fails one (it must hold there). Exploration.",
+         "durations are real sleeps; invariants are timing-independent; bash 5.2.15 used as a guard only", "DESIGN.md §3 C17"),
+})
+
 NOT_YET = {}
 
 def hooks():
